@@ -373,6 +373,11 @@ func c10SetAlgebra(k int) (blocks []*wire.Block, what string) {
 	return []*wire.Block{auth}, fmt.Sprintf("set algebra: %s op%d %s", a.String(), op, b.String())
 }
 
+// c10BadSel selects the ill-formed expression and its placement of structural case 3 (-1: random).
+var c10BadSel = -1
+
+const c10NumBadExprs = 30
+
 // c10Structural returns programs whose hostility is structural rather than a single value.
 func c10Structural(r *rand.Rand, k int) (blocks []*wire.Block, what string) {
 	v3 := uint32(3)
@@ -412,11 +417,25 @@ func c10Structural(r *rand.Rand, k int) (blocks []*wire.Block, what string) {
 	case 3:
 		what = "empty expression / lone operators / operators without kind"
 		facts(2)
-		auth.Checks = append(auth.Checks, query([]wire.Pred{pred(P, vx)}, wire.Expr{}),
-			query([]wire.Pred{pred(P, vx)}, wire.Expr{bin(4)}), query([]wire.Pred{pred(P, vx)}, wire.Expr{un(0)}),
-			query([]wire.Pred{pred(P, vx)}, wire.Expr{{Tag: 0}}),
-			query([]wire.Pred{pred(P, vx)}, wire.Expr{val(vx), {Tag: wire.OUnary, NoKind: true}}),
-			query([]wire.Pred{pred(P, vx)}, wire.Expr{val(vx), val(vx), {Tag: wire.OBinary, NoKind: true}}))
+		// ONE ill-formed expression per token (a token is refused as a whole at the first expression
+		// it cannot convert, which would hide the others), as a check, as a rule filter, in a later block
+		bad := []wire.Expr{{}, {bin(4)}, {un(0)}, {{Tag: 0}}, {val(vx), {Tag: wire.OUnary, NoKind: true}}, {val(vx), val(vx), {Tag: wire.OBinary, NoKind: true}},
+			{un(1), val(vx), val(vx), bin(4)}, {un(1), un(1), val(vx)}, {val(vx), val(vx)}, {val(vx), val(vx), val(vx), bin(4)}}
+		bi, place := r.Intn(len(bad)), r.Intn(3)
+		if c10BadSel >= 0 {
+			bi, place = c10BadSel%len(bad), c10BadSel/len(bad)%3
+		}
+		what += fmt.Sprintf(" #%d placement %d", bi, place)
+		switch place {
+		case 0:
+			auth.Checks = append(auth.Checks, query([]wire.Pred{pred(P, vx)}, bad[bi]))
+		case 1:
+			auth.Rules = append(auth.Rules, wire.Rule{Head: pred(Q, vx), Body: []wire.Pred{pred(P, vx)}, Exprs: []wire.Expr{bad[bi]}})
+		default:
+			later := &wire.Block{Context: auth.Context, Version: auth.Version}
+			later.Checks = append(later.Checks, query([]wire.Pred{pred(P, vx)}, bad[bi]))
+			blocks = append(blocks, later)
+		}
 	case 20:
 		what = "operator kind outside the known range"
 		facts(2)
@@ -735,7 +754,17 @@ func c10Run(c *core.C) {
 		// structural hostility and envelope hostility
 		for rep := 0; rep < 6; rep++ {
 			k := (c.Idx/4*6 + rep) % (c10NumStructural + c10NumEnvelope)
-			if k < c10NumStructural {
+			if k == 3 {
+				// every ill-formed expression in every placement, one token each
+				for sel := 0; sel < c10NumBadExprs; sel++ {
+					c10BadSel = sel
+					blocks, what := c10Structural(r, k)
+					c10BadSel = -1
+					env, pub := c10Sign(c, blocks)
+					run("structural", what, env.Encode(), pub, true)
+					c.Count("ill_formed_expression_tokens", 1)
+				}
+			} else if k < c10NumStructural {
 				blocks, what := c10Structural(r, k)
 				env, pub := c10Sign(c, blocks)
 				if rep == 0 {
